@@ -247,3 +247,43 @@ Proof.
     apply Forall_cons; [cbn; intros _; split; reflexivity|]. apply Forall_cons; [exact I|]. apply Forall_nil.
   - cbn. repeat split; reflexivity.
 Qed.
+
+(* ---- "once the connection is closed the record is gone" — the part the model carries ---- *)
+Section RSClose.
+  Variables (v : variant) (b : backend) (ttl : N).
+  Variables X n c : N.
+
+  Lemma state_after_close pre post :
+    X <> 0 ->
+    w_conns (fst (rs_run false v b ttl pre)) n c = true ->
+    quiet X c post = true ->
+    w_ctl (fst (rs_run false v b ttl (pre ++ AuthOK n c X :: post))) n c = Some X ->
+    snd (rs_run false v b ttl ((pre ++ AuthOK n c X :: post) ++ [Close n c])) X = None.
+  Proof.
+    intros HX Hcn Hq Hctl.
+    pose proof (state_current v b ttl X n c pre post HX Hcn Hq) as Hcur.
+    rewrite rs_run_snoc. unfold rs_step. cbn [snd rs_event]. rewrite Hctl, Hcur.
+    cbn [loc_eqb]. rewrite !N.eqb_refl. cbn [andb]. apply upd_same.
+  Qed.
+End RSClose.
+
+(* without the record's ttl the FULL "after close" statement fails in the model: a connection that was kicked (a new login of
+   the client on that node that never completed) is no longer in the registry when it is closed, so nobody calls
+   DisconnectClientIfMatch; the record lingers until its ttl (90 s) *)
+Definition state_after_close_full_statement (v : variant) (b : backend) (ttl : N) : Prop :=
+  forall (h : list event) (X : N),
+  (forall m k, w_ctl (fst (rs_run false v b ttl h)) m k <> Some X) ->     (* no connection of X is registered anywhere *)
+  snd (rs_run false v b ttl h) X = None.
+
+Lemma state_after_close_full_refuted : ~ state_after_close_full_statement current_variant redis_backend 300000.
+Proof.
+  intro H.
+  specialize (H [Connect 1 10; AuthOK 1 10 7; Connect 1 11; Kick 1 7 11; Close 1 10; Close 1 11] 7).
+  assert (Hno : forall m k, w_ctl (fst (rs_run false current_variant redis_backend 300000
+                 [Connect 1 10; AuthOK 1 10 7; Connect 1 11; Kick 1 7 11; Close 1 10; Close 1 11])) m k <> Some 7).
+  { intros m k. vm_compute.
+    destruct m as [|m]; [discriminate|]. destruct m; try discriminate. destruct k as [|k]; [discriminate|].
+    destruct k as [k|k|]; try discriminate; destruct k as [k|k|]; try discriminate;
+    destruct k as [k|k|]; try discriminate; destruct k as [k|k|]; try discriminate. }
+  specialize (H Hno). vm_compute in H. discriminate.
+Qed.
